@@ -1,10 +1,9 @@
----------------------------- MODULE Trace_Sharding ----------------------------
-EXTENDS Sharding, Json, IOUtils, TLC
+--------------------------- MODULE Trace_CqlRequest ---------------------------
+EXTENDS CqlRequest, Json, IOUtils, TLC
 Rec == ndJsonDeserialize(IOEnv.TRACE)
 VARIABLE l
 TraceInit == l = 1 /\ TLCSet(1, 1)
-Good(c) == IF c.kind = "shard" THEN ShardCaseOK(c) ELSE IF c.kind = "ports" THEN PortCaseOK(c) ELSE FALSE
-TraceNext == l <= Len(Rec) /\ Good(Rec[l]) /\ l' = l + 1
+TraceNext == l <= Len(Rec) /\ FrameOK(Rec[l]) /\ l' = l + 1
 TraceSpec == TraceInit /\ [][TraceNext]_l
 Progress == TLCSet(1, IF l > TLCGet(1) THEN l ELSE TLCGet(1))
 TraceAccepted == IF TLCGet(1) = Len(Rec) + 1 THEN TRUE
